@@ -129,6 +129,11 @@ IDENT_ARG = {
     "std::option::Option::as_deref": 0,
     "std::option::Option::unwrap": 0,
     "std::option::Option::ok_or_else": 0,
+    "std::option::Option::ok_or": 0,
+    "std::option::Option::expect": 0,
+    "std::option::Option::cloned": 0,
+    "std::option::Option::copied": 0,
+    "std::result::Result::expect": 0,
     "std::result::Result::unwrap": 0,
     "std::result::Result::map_err": 0,
     "std::iter::IntoIterator::into_iter": 0,
